@@ -1,6 +1,7 @@
 SPECIFICATION Spec
 CONSTANTS
   N = 2
+  Sample <- MCNoSample
   CovGrid <- MCCov
   OutGrid <- MCOut
   BaseGrid <- MCBase
